@@ -460,6 +460,8 @@ class Exec:
             return self.hget(st, "$set", sv.t)
         if sv.kind == "v" and sv.hint == "dict":
             return L.sset(self.hget(st, "$dkeys", sv.t))
+        if sv.kind == "v" and sv.hint == "ddset":
+            return self.hget(st, "$ddkeys", sv.t)
         return L.sset(self.as_seq(sv, st))
 
     def contains(self, container, item, st):
